@@ -1,6 +1,7 @@
 import Unimock.Lemmas.State
 import Unimock.Lemmas.Scan
 import Unimock.Model.Assemble
+import Unimock.Lemmas.Ordered
 /-!
 # C04 — next_call patterns are consumed strictly in declaration order across methods
 
@@ -150,5 +151,154 @@ theorem C04_unmentioned_no_slot (s : Shared α ρ) (m : MethodInfo) (a : α) (hf
   · split
     · rfl
     · cases s.fallback <;> rfl
+
+/-! ## the global expected sequence: ranges assigned at construction, counters along a history -/
+
+/-- along a deviation-free history every ordered pattern has been matched exactly as often as the
+    global index has advanced into its slot range -/
+def CountInv (s : Shared α ρ) : Prop :=
+  ∀ id i p, s.pat? id i = some p → modeOf s.mockers id = some .inOrder →
+    p.count = min (s.nextOrdered - p.lo) (p.hi - p.lo)
+
+/-- **C04, the slot ranges assigned at construction.** For every clause tree that assembles, the
+    ordered patterns (over all methods) own pairwise disjoint ranges `[lo, lo + exact count)`, assigned
+    consecutively in flattening order (each range starts where the running index stood and ends where it
+    stands afterwards), unordered patterns own nothing, the global index starts at 0 and every counter at
+    0 — so the ranges laid end to end are the expected global sequence. -/
+theorem C04_assembled_ranges (fb : Fallback) (c : ClauseTree α ρ) (s : Shared α ρ) (h : newMock fb c = .ok s) :
+    OrdDisjoint s.mockers ∧ (∃ total, OrdBelow s.mockers total) ∧ s.nextOrdered = 0 ∧ CountInv s := by
+  unfold newMock at h
+  cases ha : assembleList ({} : Asm α ρ) (flatten c) with
+  | error e => simp [ha] at h
+  | ok a =>
+    simp only [ha] at h
+    injection h with h
+    subst h
+    have hd0 : OrdDisjoint ({} : Asm α ρ).mockers := by intro id i id' j p q hp; simp [patOf] at hp
+    have hb0 : OrdBelow ({} : Asm α ρ).mockers ({} : Asm α ρ).cur := by intro id i p hp; simp [patOf] at hp
+    obtain ⟨hd, hb⟩ := assembleList_ranges _ a _ ha hd0 hb0
+    refine ⟨hd, ⟨a.cur, hb⟩, rfl, ?_⟩
+    intro id i p hp hm
+    have := hb id i p hp hm
+    simp [this.2.2]
+
+theorem modeOf_setPat (s : Shared α ρ) (id i id' : Nat) (p : Pattern α ρ) :
+    modeOf (s.setPat id i p).mockers id' = modeOf s.mockers id' := by
+  have h := find_setPat s id i id' p
+  unfold Shared.find at h
+  unfold modeOf
+  rw [h]
+  cases s.mockers.find? (·.info.id = id') with
+  | none => rfl
+  | some m => simp only [Option.map_some]; split <;> rfl
+
+/-- replacing a pattern by one with the same range leaves every range as it was -/
+theorem ranges_of_setPat (s : Shared α ρ) (id0 i0 : Nat) (p0 p' : Pattern α ρ) (h0 : s.pat? id0 i0 = some p0)
+    (id i : Nat) (p : Pattern α ρ) (hp : (s.setPat id0 i0 p').pat? id i = some p)
+    (hlo : p'.lo = p0.lo) (hhi : p'.hi = p0.hi) :
+    ∃ q, s.pat? id i = some q ∧ q.lo = p.lo ∧ q.hi = p.hi := by
+  by_cases hsame : id = id0 ∧ i = i0
+  · rw [hsame.1, hsame.2, pat?_setPat_same s id0 i0 p' p0 h0] at hp
+    injection hp with hp
+    rw [hsame.1, hsame.2]
+    exact ⟨p0, h0, by rw [← hp, hlo], by rw [← hp, hhi]⟩
+  · have hne : id ≠ id0 ∨ i ≠ i0 := by
+      by_cases h1 : id = id0
+      · right; intro h2; exact hsame ⟨h1, h2⟩
+      · left; exact h1
+    rw [pat?_setPat_other s id0 i0 id i p' hne] at hp
+    exact ⟨p, hp, rfl, rfl⟩
+
+/-- **C04, an accepted ordered call keeps the counters in step with the global index**, and its
+    response index is the slot-local index `i - lo` ("it then gets that slot's response"). -/
+theorem C04_accepted_call_refines (s : Shared α ρ) (m : MethodInfo) (a : α) (fm : FnMocker α ρ)
+    (hf : s.find m.id = some fm) (hm : fm.mode = .inOrder)
+    (hdis : OrdDisjoint s.mockers) (hinv : CountInv s)
+    (pi : Nat) (hlt : pi < fm.pats.length) (hown : fm.pats[pi].owns s.nextOrdered)
+    (hfirst : ∀ j (hj : j < pi), ¬ (fm.pats[j]'(by omega)).owns s.nextOrdered)
+    (hacc : tryPat fm.pats[pi] a = some .accept) :
+    fm.pats[pi].count = s.nextOrdered - fm.pats[pi].lo ∧
+    (evalCall s m a).2 = (respond m pi fm.pats[pi].responders (s.nextOrdered - fm.pats[pi].lo)).2 ∧
+    CountInv (evalCall s m a).1 ∧ OrdDisjoint (evalCall s m a).1.mockers := by
+  have hmode : modeOf s.mockers m.id = some .inOrder := by
+    unfold modeOf; unfold Shared.find at hf; rw [hf]; simp [hm]
+  have hpat : s.pat? m.id pi = some fm.pats[pi] := by
+    unfold Shared.pat?; rw [hf]; simp [hlt]
+  have hcount := hinv m.id pi fm.pats[pi] hpat hmode
+  obtain ⟨hlo, hhi⟩ := hown
+  have hc : fm.pats[pi].count = s.nextOrdered - fm.pats[pi].lo := by rw [hcount]; omega
+  rw [C04_accepts s m a fm hf hm pi hlt ⟨hlo, hhi⟩ hfirst hacc]
+  refine ⟨hc, by simp only; rw [hc], ?_, ?_⟩
+  · -- counters
+    intro id i q hq hmq
+    rw [modeOf_setPat] at hmq
+    simp only [setPat_nextOrdered]
+    have hpat' : ({ s with nextOrdered := s.nextOrdered + 1 } : Shared α ρ).pat? m.id pi = some fm.pats[pi] := hpat
+    by_cases hsame : id = m.id ∧ i = pi
+    · rw [hsame.1, hsame.2, pat?_setPat_same _ _ _ _ _ hpat'] at hq
+      injection hq with hq
+      rw [← hq]
+      simp only; omega
+    · have hne : id ≠ m.id ∨ i ≠ pi := by
+        by_cases h1 : id = m.id
+        · right; intro h2; exact hsame ⟨h1, h2⟩
+        · left; exact h1
+      rw [pat?_setPat_other _ _ _ _ _ _ hne] at hq
+      have hq' : s.pat? id i = some q := hq
+      have hcq := hinv id i q hq' hmq
+      have hd := hdis id i m.id pi q fm.pats[pi] hq' hpat hmq hmode hne
+      rw [hcq]
+      rcases hd with h | h <;> omega
+  · -- ranges never change
+    intro id i id' j p q hp hq hm1 hm2 hne
+    rw [modeOf_setPat] at hm1 hm2
+    have hpat' : ({ s with nextOrdered := s.nextOrdered + 1 } : Shared α ρ).pat? m.id pi = some fm.pats[pi] := hpat
+    obtain ⟨p0, hp0, e1, e2⟩ := ranges_of_setPat _ m.id pi fm.pats[pi] _ hpat' id i p hp rfl rfl
+    obtain ⟨q0, hq0, e3, e4⟩ := ranges_of_setPat _ m.id pi fm.pats[pi] _ hpat' id' j q hq rfl rfl
+    have hp0' : patOf s.mockers id i = some p0 := hp0
+    have hq0' : patOf s.mockers id' j = some q0 := hq0
+    have := hdis id i id' j p0 q0 hp0' hq0' hm1 hm2 hne
+    omega
+
+/-- **C04, unordered and unmentioned calls are stuttering steps of the refinement**: they keep
+    `CountInv` (no ordered pattern and not the global index is touched). -/
+theorem C04_unordered_keeps_invariant (s : Shared α ρ) (m : MethodInfo) (a : α)
+    (hmode : modeOf s.mockers m.id ≠ some .inOrder) (hinv : CountInv s) :
+    CountInv (evalCall s m a).1 := by
+  cases hf : s.find m.id with
+  | none => rw [C04_unmentioned_no_slot s m a hf]; exact hinv
+  | some fm =>
+    have hm : fm.mode = .anyOrder := by
+      have : modeOf s.mockers m.id = some fm.mode := by unfold modeOf; unfold Shared.find at hf; rw [hf]; rfl
+      rw [this] at hmode
+      cases hfm : fm.mode with
+      | anyOrder => rfl
+      | inOrder => rw [hfm] at hmode; exact absurd rfl hmode
+    obtain ⟨hnext, hother⟩ := C04_unordered_no_slot s m a fm hf hm
+    intro id i p hp hmo
+    -- ordered methods are different methods: their patterns are untouched
+    have hmodes : modeOf (evalCall s m a).1.mockers id = modeOf s.mockers id := by
+      unfold evalCall
+      simp only [hf, hm]
+      cases scan fm.pats a 0 with
+      | none => cases s.fallback <;> rfl
+      | some r =>
+        obtain ⟨pi, t⟩ := r
+        cases t with
+        | noMatcher => rfl
+        | userPanic => rfl
+        | accept =>
+          simp only
+          cases fm.pats[pi]? with
+          | none => rfl
+          | some q => exact modeOf_setPat s m.id pi id _
+    rw [hmodes] at hmo
+    have hne : id ≠ m.id := by
+      intro he; subst he
+      have : modeOf s.mockers m.id = some fm.mode := by unfold modeOf; unfold Shared.find at hf; rw [hf]; rfl
+      rw [this, hm] at hmo; cases hmo
+    rw [hother id i hne] at hp
+    rw [hnext]
+    exact hinv id i p hp hmo
 
 end Unimock
